@@ -1,6 +1,6 @@
 // vp/c16_probe.hpp — compile-time "is anything writable from here?" probe used by the generated C16 programs (py/c16.py).
 // probe<E>() takes the type (with value category, as given by decltype((expr))) of the expression at the end of an access path and follows
-// every observer the object offers (chained [], dereference, begin(), elements(), home(), front(), call syntax) down to element references,
+// every observer the object offers (chained [], dereference, operator->, begin(), elements(), home(), front(), call syntax) down to element references,
 // collecting which of them are modifiable.  Only declared return types are inspected, which is exactly what decides whether an element
 // reference is `T&` or `T const&`.  Whether an object *accepts* assignment, swap or fill cannot be read off declarations in this library
 // (several mutating members are declared for read-only types and fail only when their body is instantiated or linked): that question is
@@ -21,7 +21,7 @@ template<class E> constexpr bool is_elem = std::is_arithmetic_v<rr<E>>;
 enum Bits : unsigned {
 	W_ELEM = 1U,   // a modifiable element reference is reachable
 	W_BASE = 16U,  // base() / data_elements() of an array or view is a pointer to non-const
-	W_VIA_IDX = 32U, W_VIA_DEREF = 64U, W_VIA_ELEMENTS = 128U, W_VIA_BEGIN = 256U, W_VIA_HOME = 512U, W_VIA_FRONT = 1024U, W_VIA_CALL = 2048U  // which first observer led to the modifiable element
+	W_VIA_IDX = 32U, W_VIA_DEREF = 64U, W_VIA_ELEMENTS = 128U, W_VIA_BEGIN = 256U, W_VIA_HOME = 512U, W_VIA_FRONT = 1024U, W_VIA_CALL = 2048U, W_VIA_ARROW = 4096U  // which first observer led to the modifiable element
 };
 
 #define VP16_DETECT(NAME, EXPR)                                                                            \
@@ -34,6 +34,7 @@ VP16_DETECT(d_elements, std::declval<E>().elements())
 VP16_DETECT(d_begin, std::declval<E>().begin())
 VP16_DETECT(d_home, std::declval<E>().home())
 VP16_DETECT(d_front, std::declval<E>().front())
+VP16_DETECT(d_arrow, std::declval<E>().operator->())  // iterators, sub-array pointers and their arrow proxies: it->member is (*it.operator->()).member
 VP16_DETECT(d_base, std::declval<E>().base())
 VP16_DETECT(d_data_elements, std::declval<E>().data_elements())
 VP16_DETECT(d_call0, std::declval<E>()())
@@ -58,6 +59,7 @@ constexpr unsigned probe() {
 			if constexpr(d_begin<E>::value) { r |= via(probe<typename d_begin<E>::type, Budget - 1>(), W_VIA_BEGIN); }
 			if constexpr(d_home<E>::value) { r |= via(probe<typename d_home<E>::type, Budget - 1>(), W_VIA_HOME); }
 			if constexpr(d_front<E>::value) { r |= via(probe<typename d_front<E>::type, Budget - 1>(), W_VIA_FRONT); }
+			if constexpr(d_arrow<E>::value) { r |= via(probe<typename d_arrow<E>::type, Budget - 1>(), W_VIA_ARROW); }
 			if constexpr(d_rank<E>::value && d_elements<E>::value) { if constexpr(d_call0<E>::value) { r |= via(probe<typename d_call0<E>::type, Budget - 1>(), W_VIA_CALL); } }
 		}
 		// base()/data_elements(): asked of arrays and views only (iterators, cursors and element ranges expose their raw pointer by design; base() is not one of
